@@ -2,3 +2,47 @@
 /// byte i is a carriage return that is not the first half of CR LF: a line break for the scanner, not for code that splits at LF
 pub open spec fn lone_cr_at(b: Seq<u8>, i: int) -> bool { b[i] == 0x0Du8 && !(i + 1 < b.len() && b[i + 1] == 0x0Au8) }
 pub open spec fn has_lone_cr_spec(b: Seq<u8>) -> bool { exists|i: int| 0 <= i < b.len() && lone_cr_at(b, i) }
+
+/// character offsets inside a slice taken between two char boundaries are those of the whole text, shifted
+proof fn lemma_slice_char_offs(cs: Seq<char>, a: int, b: int)
+    requires boundary(cs, a), boundary(cs, b), a <= b,
+    ensures
+        0 <= char_index(cs, a) <= char_index(cs, b) <= cs.len(),
+        char_off(cs, char_index(cs, a)) == a, char_off(cs, char_index(cs, b)) == b,
+        forall|k: int| 0 <= k <= char_index(cs, b) - char_index(cs, a) ==>
+            a + #[trigger] char_off(cs.subrange(char_index(cs, a), char_index(cs, b)), k) == char_off(cs, char_index(cs, a) + k),
+{
+    reveal(boundary); reveal(char_index);
+    let ia = char_index(cs, a); let ib = char_index(cs, b);
+    assert(0 <= ia <= cs.len() && char_off(cs, ia) == a);
+    assert(0 <= ib <= cs.len() && char_off(cs, ib) == b);
+    if ib < ia { lemma_char_off_monotonic(cs, ib, ia); }
+    let sub = cs.subrange(ia, ib);
+    assert forall|k: int| 0 <= k <= ib - ia implies a + #[trigger] char_off(sub, k) == char_off(cs, ia + k) by {
+        assert(cs.take(ia + k) =~= cs.take(ia) + sub.take(k));
+        encode_utf8_concat(cs.take(ia), sub.take(k));
+    }
+}
+
+proof fn lemma_line_start_follows_lf(b: Seq<u8>, cs: Seq<char>, r: Seq<usize>, j: int)
+    requires line_starts_ok(b, cs, r), 1 <= j < r.len(),
+    ensures r[j] >= 1, r[j] <= b.len(), b[r[j] - 1] == 0x0a, r[j - 1] < r[j],
+{
+    reveal(line_starts_ok);
+}
+
+/// THE line table of a text (what `line_starts` returns): determined by `line_starts_ok`
+spec fn line_starts_of(s: &str) -> Seq<usize> { choose|r: Seq<usize>| line_starts_ok(s.spec_bytes(), s@, r) }
+
+/// boundaries are ordered like the characters they stand in front of
+proof fn lemma_boundary_order(cs: Seq<char>, a: int, b: int)
+    requires boundary(cs, a), boundary(cs, b),
+    ensures (a < b) == (char_index(cs, a) < char_index(cs, b)), (a == b) == (char_index(cs, a) == char_index(cs, b)),
+{
+    reveal(boundary); reveal(char_index);
+    let ia = char_index(cs, a); let ib = char_index(cs, b);
+    assert(0 <= ia <= cs.len() && char_off(cs, ia) == a);
+    assert(0 <= ib <= cs.len() && char_off(cs, ib) == b);
+    if ia < ib { lemma_char_off_monotonic(cs, ia, ib); }
+    if ib < ia { lemma_char_off_monotonic(cs, ib, ia); }
+}
